@@ -77,7 +77,8 @@ def write_omen(od, om, enc='utf-8'):
     with open(os.path.join(od, 'pcfg_omen_prob.txt'), 'w', encoding=enc, newline='') as f:
         for l, p in om.get('probs', []):
             f.write(f"{l}\t{fmt(p)}\n")
-    with open(os.path.join(od, 'omen_keyspace.txt'), 'w', encoding=enc, newline='') as f:
+    # omen_keyspace.txt is read with the platform default encoding: in a ruleset declared utf-8-sig it carries no byte-order mark (a hand-made / repaired ruleset)
+    with open(os.path.join(od, 'omen_keyspace.txt'), 'w', encoding=('utf-8' if enc.lower().replace('_', '-') == 'utf-8-sig' else enc), newline='') as f:
         for l, k in om.get('keyspace', []):
             f.write(f"{l}\t{k}\n")
 
